@@ -41,14 +41,16 @@ def gen_spec(prop, rng, tier):
         wl = gen.gen_workload(rng, profile='many')
     elif rng.random() < 0.06:
         wl = gen.gen_workload(rng, profile='boundary')
+    elif prop in ('C02', 'C10') and rng.random() < (0.008 if tier == 'quick' else 0.03):
+        wl = gen.gen_workload(rng, profile='broom')        # guide trees 50-90 levels deep with forks at many depths
     if prop == 'C01' and rng.random() < 0.15 and len(wl['seqs']) >= 3:
         # zero-length input sequences: "one row per NON-EMPTY input sequence, in input order"
         for _ in range(rng.randint(1, 3)):
             k = rng.randrange(len(wl['seqs']) + 1)
             wl['seqs'].insert(k, ''); wl['names'].insert(k, 'empty%d_%d' % (k, rng.randrange(1000)))
         wl['names'] = ['%s.%d' % (n.split('.')[0][:18], i) for i, n in enumerate(wl['names'])]
-    big = wl['profile'] in ('kmeans', 'hirsch', 'medium', 'large', 'multilong', 'many') or (wl['profile'] == 'boundary' and len(wl['seqs']) * max(len(x) for x in wl['seqs']) > 20000)
-    if wl['profile'] == 'large':
+    big = wl['profile'] in ('kmeans', 'hirsch', 'medium', 'large', 'multilong', 'many', 'broom') or (wl['profile'] == 'boundary' and len(wl['seqs']) * max(len(x) for x in wl['seqs']) > 20000)
+    if wl['profile'] == 'large' or (wl['profile'] == 'broom' and tier == 'quick'):
         nruns = min(nruns, 2)
     if prop == 'C01':
         entry = rng.choice(['A', 'LIB', 'LIB', 'CLI', 'CLI_STDOUT'])
